@@ -186,11 +186,17 @@ def dense_ldpc(rng, count, cbs=(None,), finish_choices=(False,), probe="each"):
         if rng.random() < 0.2:      # dozens of equations per symbol: tiny k with many repairs, or N1 in the tens
             k = rng.choice([1, 2, 2, 3, rng.randint(4, 10)])
             r = rng.randint(17, 40)
-            n1 = rng.choice([3, 5, r, r - 1, rng.randint(3, r)]) if k <= 3 else rng.randint(17, r)
+            n1 = rng.choice([3, 5, r, r - 1, rng.randint(3, r)]) if k <= 3 else rng.randint(9, r)
         p = P(3, k, r, N1=n1, seed=rng.randint(1, 2 ** 31 - 2), length=gen.need_len(3, k, 0) + rng.choice([0, 1]))
         # most repairs first, then sources in random order with a few missing: peeling cascades
         reps = [e for e in range(k, p.n) if rng.random() < 0.9]
         srcs = [e for e in range(k) if rng.random() < 0.8]
+        if rng.random() < 0.35:
+            # every other repair symbol: each equation keeps one unknown repair, so the last source symbols to arrive
+            # bring many equations to degree one at once, with DIFFERENT symbols to rebuild (and chains behind them)
+            par = rng.randrange(2)
+            reps = [e for e in range(k, p.n) if (e - k) % 2 == par or rng.random() < 0.12]
+            srcs = [e for e in range(k) if rng.random() < 0.93]
         rng.shuffle(reps)
         rng.shuffle(srcs)
         order = reps + srcs if rng.random() < 0.7 else srcs + reps
